@@ -180,6 +180,11 @@ def judge_file(path, rows, swap, failures, hsh, desc, flags_present, fc=None):
         for (lo, la) in ((p['lon0'], p['lat0']), ((p['lon0'] + p['lon1']) / 2, (p['lat0'] + p['lat1']) / 2)):
             for m in (p['m0'], (p['m0'] + p['m1']) / 2):
                 pts.append((lo, la, m, p['rate'], 'corner' if lo == p['lon0'] else 'centre'))
+            if lo != p['lon0']:
+                # magnitudes a small decimal distance below the bin's upper edge (far outside round-off: still this row's bin)
+                for delta in (1e-3, 2e-5, 5e-6, 1e-6, 1e-9):
+                    if p['m1'] - delta > p['m0']:
+                        pts.append((lo, la, p['m1'] - delta, p['rate'], 'magnitude-just-below-upper-edge'))
     if pts:
         lons = numpy.array([x[0] for x in pts])
         lats = numpy.array([x[1] for x in pts])
@@ -383,9 +388,13 @@ def run_scale(case, failures, hsh):
 
     def build():
         if case['source'] == 'file':
-            return csep.load_gridded_forecast(path, start_date=T0, end_date=T1)
-        reg = fixtures.cartesian_region([(0.0, 0.0), (0.0, 0.1), (0.1, 0.0), (0.1, 0.1)], 0.1)
-        return GriddedForecast.from_custom(lambda: (orig.copy(), reg, numpy.array([4.95, 5.05])), start_time=T0, end_time=T1)
+            fc = csep.load_gridded_forecast(path, start_date=T0, end_date=T1)
+        else:
+            reg = fixtures.cartesian_region([(0.0, 0.0), (0.0, 0.1), (0.1, 0.0), (0.1, 0.1)], 0.1)
+            fc = GriddedForecast.from_custom(lambda: (orig.copy(), reg, numpy.array([4.95, 5.05])), start_time=T0, end_time=T1)
+        # every history starts with an inspection of the forecast (total and both marginals are READ before the first operation)
+        _ = float(fc.sum()), float(fc.event_count), numpy.sum(fc.spatial_counts()), numpy.sum(fc.magnitude_counts())
+        return fc
 
     def apply_op(fc, op):
         if op.startswith('scale('):
@@ -396,6 +405,7 @@ def run_scale(case, failures, hsh):
                  'date(after)': datetime.datetime(2012, 1, 1)}[op]
             fc.scale_to_test_date(d)
         totals.append((float(fc.sum()), float(fc.event_count), float(numpy.sum(fc.data))))     # the total is READ after every operation
+        _ = fc.spatial_counts(), fc.magnitude_counts()                                          # ... and so are the marginals
         return numpy.array(fc.data, dtype=float)
 
     totals = []
